@@ -30,8 +30,26 @@ def qn(ns, name):
     return "{%s}%s" % (ns, name) if ns else name
 
 
-def node(q, a=None, t=None, c=None, tl=None):
-    return {"q": q, "a": [list(x) for x in (a or [])], "ns": [list(x) for x in NSMAP], "t": t, "c": c or [], "tl": tl}
+def node(q, a=None, t=None, c=None, tl=None, ns=None):
+    return {"q": q, "a": [list(x) for x in (a or [])], "ns": [list(x) for x in (NSMAP if ns is None else ns)], "t": t,
+            "c": c or [], "tl": tl}
+
+
+def rebound(ns, prefix, uri):
+    """in-scope map `ns` with `prefix` declared (or re-bound) to `uri`"""
+    return [list(x) for x in ns if x[0] != prefix] + [[prefix, uri]]
+
+
+# namespace declarations made BELOW the top captured element, with an attribute that uses them:
+# (prefix, uri, attribute, needs_risky)   -- risky = the value triggers C11-anyattr-prefixed-value
+SCOPED = [
+    ("w", "urn:inner", ["ref", "w:thing"], True),            # new prefix
+    ("p", "urn:p2", ["ref", "p:thing"], True),               # the root's `p` (urn:a) re-bound
+    ("w", "urn:inner", ["{urn:b}ref", "w:n-1"], True),
+    ("x2", XS, [XSI_TYPE, "x2:int"], False),                 # new prefix for the schema namespace, on xsi:type
+    ("r", XS, [XSI_TYPE, "r:string"], False),                # the root's `r` (urn:b) re-bound, on xsi:type
+    ("tn", "urn:other", [XSI_TYPE, "tn:unknown"], False),
+]
 
 
 # ------------------------------------------------------------------ shapes
@@ -73,29 +91,43 @@ RISKY_ATTRS = [
 ]
 
 
-def rand_tree(rng, size, clean=True, top_ns=None, depth=0):
-    """random tree with about `size` nodes; the root namespace is taken from top_ns when given"""
-    ns = rng.choice(top_ns) if (top_ns is not None and depth == 0) else rng.choice(NAMESPACES + ["urn:t"])
-    q = qn(ns, rng.choice(NAMES))
+def rand_tree(rng, size, clean=True, top_ns=None, depth=0, ns=None):
+    """random tree with about `size` nodes; the root namespace is taken from top_ns when given.
+    Below the root, elements sometimes declare or re-bind a prefix on themselves (inherited by their
+    descendants) and use it in an attribute value (`SCOPED`)."""
+    ns = [list(x) for x in (NSMAP if ns is None else ns)]
+    uri = rng.choice(top_ns) if (top_ns is not None and depth == 0) else rng.choice(NAMESPACES + ["urn:t"])
+    q = qn(uri, rng.choice(NAMES))
     a = copy.deepcopy(rng.choice(SAFE_ATTRS))
     if not clean and rng.random() < 0.25:
         a = copy.deepcopy(rng.choice(RISKY_ATTRS))
+    if depth > 0 and rng.random() < 0.08:
+        # a nested xsi:type stays an attribute of the generic element
+        a = [x for x in a if x[0] != XSI_TYPE] + [[XSI_TYPE, rng.choice(["xs:int", "xs:string", "p:unknown"])]]
+    if rng.random() < (0.18 if depth > 0 else 0.1):       # (also on the top captured element itself)
+        # (an xsi:type naming a builtin datatype on the top captured element makes it a typed primitive, not
+        # generic content: there only the plain attributes are used)
+        pool = [x for x in SCOPED if not (clean and x[3]) and not (depth == 0 and x[2][0] == XSI_TYPE)]
+        if pool:
+            prefix, u2, attr, risky = rng.choice(pool)
+            ns = rebound(ns, prefix, u2)
+            if rng.random() < 0.85:          # (sometimes only declared, used further down or not at all)
+                a = [x for x in a if x[0] != attr[0]] + [list(attr)]
     t = rng.choice(TEXTS + TEXTS + MORE_TEXTS)
     kids = []
     budget = size - 1
     while budget > 0 and depth < 4:
         k = rng.randint(1, budget)
-        kids.append(rand_tree(rng, k, clean, None, depth + 1))
+        kids.append(rand_tree(rng, k, clean, None, depth + 1, ns))
         budget -= k
     tl = rng.choice(TEXTS + TEXTS + MORE_TEXTS)
-    if depth > 0 and rng.random() < 0.08:
-        # a nested xsi:type stays an attribute of the generic element
-        a = [x for x in a if x[0] != XSI_TYPE] + [[XSI_TYPE, rng.choice(["xs:int", "xs:string", "p:unknown"])]]
-        if clean:
-            # QName-valued: only compared after prefix resolution; kept for the oracle, not for the
-            # model correspondence of c11.anyrt (the abstract writer has no prefix for it)
-            pass
-    return node(q, a, t, kids, tl)
+    if depth > 1 and rng.random() < 0.1:
+        # a value that uses a prefix declared by an ancestor below the top captured element
+        for pfx, u2 in ns:
+            if pfx in ("w", "x2") and not (clean and pfx == "w"):
+                a = [x for x in a if x[0] not in ("ref", XSI_TYPE)] + [["ref", "w:deep"] if pfx == "w" else [XSI_TYPE, "x2:short"]]
+                break
+    return node(q, a, t, kids, tl, ns)
 
 
 XS_QNAME = "{%s}QName" % XS
@@ -389,11 +421,28 @@ def is_blank(s):
     return s is None or s.strip() == ""
 
 
-def norm(t, keep_tail=True, host=False):
+def declared_prefixed(v, nsmap):
+    """`prefix:local` with the prefix in scope (and not a `scheme://…` value)"""
+    if ":" not in v or v.startswith("{"):
+        return False
+    p, rest = v.split(":", 1)
+    return bool(p) and bool(rest) and not rest.startswith("//") and p in nsmap
+
+
+def denote(v, nsmap):
+    """the expanded name an attribute value denotes in the scope `nsmap`, however it is spelled
+    (`prefix:local` with the prefix in scope, or Clark form); any other value denotes itself"""
+    if declared_prefixed(v, nsmap):
+        p, rest = v.split(":", 1)
+        return "{%s}%s" % (nsmap[p], rest)
+    return v
+
+
+def norm(t, keep_tail=True, host=False, denoted=False):
     """normal form of `≈ws`, written independently of the Lean model: absent text = empty text,
     whitespace-only text next to child elements is insignificant, prefix maps are not compared,
     attributes are a set, `xsi:type` values are compared as resolved names"""
-    kids = [norm(c) for c in t["c"]]
+    kids = [norm(c, denoted=denoted) for c in t["c"]]
     text = t["t"]
     if kids or host:
         # (the host is a typed model: its whitespace-only text is never generic content)
@@ -411,6 +460,8 @@ def norm(t, keep_tail=True, host=False):
                 # QName-typed content: compared as the name it denotes in the scope of this element
                 # (the writer may rename the prefix; it may not change the namespace or the type)
                 text = resolve(text, nsmap)
+        elif denoted:
+            v = denote(v, nsmap)
         attrs.append([k, v])
     return {"q": t["q"], "a": sorted(attrs), "t": text, "c": kids, "tl": tail}
 
@@ -446,14 +497,16 @@ def first_diff(a, b, path="/"):
     return None
 
 
-def ref_any(t, root=True):
+def ref_any(t, root=True, denoted=False):
     """reference AnyElement tree of a document per the documented behaviour of the generic model:
     names, attributes, text ('' when absent; whitespace-only text dropped next to children), tail"""
-    kids = [ref_any(c, False) for c in t["c"]]
+    kids = [ref_any(c, False, denoted) for c in t["c"]]
     text = t["t"]
     if kids and is_blank(text):
         text = None
     if text is None:
         text = ""
     tail = None if (root or is_blank(t["tl"])) else t["tl"]
-    return {"any": {"qname": t["q"], "text": text, "tail": tail, "attrs": [list(x) for x in t["a"]], "children": kids}}
+    nsmap = {p: u for p, u in t["ns"]}
+    attrs = [[k, denote(v, nsmap) if denoted else v] for k, v in t["a"]]
+    return {"any": {"qname": t["q"], "text": text, "tail": tail, "attrs": attrs, "children": kids}}
